@@ -41,9 +41,12 @@ pub mod server {
     use anyhow::anyhow;
     use anyhow::bail;
     use futures::SinkExt;
-    use futures::StreamExt;
+    use tokio::io::AsyncRead;
+    use tokio::io::AsyncReadExt;
     use tokio::net::TcpStream;
-    use tokio_util::codec::FramedRead;
+    use tokio_util::bytes::BufMut;
+    use tokio_util::bytes::BytesMut;
+    use tokio_util::codec::Decoder;
     use tokio_util::codec::FramedWrite;
 
     use crate::protocol::address::Address;
@@ -58,14 +61,12 @@ pub mod server {
     use crate::protocol::socks5::message::Socks5InitialResponse;
 
     pub async fn no_auth(stream: &mut TcpStream, response: Socks5CommandResponse) -> Result<Socks5CommandRequest> {
-        let (rh, wh) = stream.split();
-        let mut reader = FramedRead::new(rh, Socks5InitialRequestDecoder);
-        reader.next().await.ok_or_else(|| anyhow!("connection closed during the handshake"))??;
-        // keep what has been read beyond the greeting: the request may arrive in the same segment
-        let mut reader = reader.map_decoder(|_| Socks5CommandRequestDecoder);
+        let (mut rh, wh) = stream.split();
+        let mut buf = BytesMut::new();
+        read_message(&mut rh, &mut buf, &mut Socks5InitialRequestDecoder).await?;
         let mut writer = FramedWrite::new(wh, Socks5ServerEncoder);
         writer.send(Box::new(Socks5InitialResponse::new(Socks5AuthMethod::NoAuth))).await?;
-        let command_request = reader.next().await.ok_or_else(|| anyhow!("connection closed during the handshake"))??;
+        let command_request = read_message(&mut rh, &mut buf, &mut Socks5CommandRequestDecoder).await?;
         // only CONNECT to a nameable target is served: anything else is answered with a failure, not with a tunnel
         let unnamed = matches!(&command_request.dst_addr, Address::Domain(host, _) if host.is_empty());
         if command_request.command_type != Socks5CommandType::Connect || unnamed {
@@ -74,5 +75,20 @@ pub mod server {
         }
         writer.send(Box::new(response)).await?;
         Ok(command_request)
+    }
+
+    /// Take one message from the stream and not a byte more: what the application sends after its request
+    /// (it need not wait for the reply) belongs to the tunnel, so nothing may be read ahead into a buffer that is dropped
+    async fn read_message<R, D>(rh: &mut R, buf: &mut BytesMut, decoder: &mut D) -> Result<D::Item>
+    where
+        R: AsyncRead + Unpin,
+        D: Decoder<Error = anyhow::Error>,
+    {
+        loop {
+            if let Some(item) = decoder.decode(buf)? {
+                return Ok(item);
+            }
+            buf.put_u8(rh.read_u8().await.map_err(|_| anyhow!("connection closed during the handshake"))?);
+        }
     }
 }
